@@ -36,12 +36,29 @@ def pure_ops(spec):
     return ops
 
 
+def _dense_views_infeasible(a):
+    """A SparselyBin whose filled indexes span an astronomic range (a datum at +-inf or 1e30 lands in a saturated index)
+    cannot be asked for a dense view: bin_entries() / mpv would allocate one slot per index in between."""
+    from ..invariants import _kids
+
+    stack = [a]
+    while stack:
+        n = stack.pop()
+        if n.name == "SparselyBin" and n.bins and max(n.bins) - min(n.bins) > 100000:
+            return True
+        stack.extend(k for _, k in _kids(n))
+    return False
+
+
 def accessors(a, b):
     import contextlib
     import io
 
     out = []
+    dense_ok = not _dense_views_infeasible(a)
     for nm in ACCESSORS:
+        if not dense_ok and nm in ("bin_entries", "bin_edges", "bin_centers", "ascii", "histogram"):
+            continue
         try:
             f = getattr(a, nm, None)
         except Exception:
@@ -53,6 +70,8 @@ def accessors(a, b):
             except Exception:
                 pass  # correctness of the views is C13's business; here only side effects matter
     for nm in PROPS:
+        if not dense_ok and nm == "mpv":
+            continue
         try:
             out.append(getattr(a, nm))
         except Exception:
